@@ -44,11 +44,18 @@ def main():
     suite_ok = rc == 0
     dc = demo_cmd(wt)
     rc1, out1 = sh(dc, cwd=wt, env=env)
-    sh('git stash', cwd=wt)
+    # NOT `git stash`: refs/stash is shared by every worktree of the repository, concurrent users would swap changes
+    pf0 = os.path.join('/tmp', 'seed-%s.rev.diff' % name)
+    with open(pf0, 'w') as f:
+        f.write(patch)
+    rcr, outr = sh('git apply -R %s' % pf0, cwd=wt)
+    if rcr != 0:
+        raise SystemExit('cannot reverse the patch in the worktree: %s' % outr)
     try:
         rc0, out0 = sh(dc, cwd=wt, env=env)
     finally:
-        sh('git stash pop', cwd=wt)
+        sh('git apply %s' % pf0, cwd=wt)
+        os.unlink(pf0)
     report['demo_cmd'] = 'cd <worktree> && PYTHONPATH=<worktree>/src ' + dc
     report['demo_with_patch_exit'] = rc1
     report['demo_without_patch_exit'] = rc0
